@@ -58,6 +58,13 @@ func syncExports() interp.Exports {
 	return interp.Exports{"sync/sync": {"WaitGroup": reflect.ValueOf((*vsched.WaitGroup)(nil)), "Mutex": reflect.ValueOf((*vsched.Mutex)(nil))}}
 }
 
+// miniStd is a small process-wide symbol table with the fmt and os entries that restricted mode replaces per interpreter
+// (the whole stdlib table would triple the build time of the exploration binary).
+var miniStd = interp.Exports{
+	"fmt/fmt": {"Println": reflect.ValueOf(fmt.Println), "Printf": reflect.ValueOf(fmt.Printf), "Sprint": reflect.ValueOf(fmt.Sprint)},
+	"os/os":   {"Args": reflect.ValueOf(&os.Args).Elem(), "Getenv": reflect.ValueOf(os.Getenv), "Exit": reflect.ValueOf(os.Exit)},
+}
+
 func newInterp(buf *bytes.Buffer) *interp.Interpreter {
 	steps := 0
 	i := interp.New(interp.Options{Stdout: buf, Stderr: &bytes.Buffer{}})
@@ -129,6 +136,28 @@ func run(sc scenario, prefix []int) (r result) {
 				_, e2 = i2.Eval(strings.ReplaceAll(sc.Src, "BASE", "100"))
 			})
 			_, err = i1.Eval(strings.ReplaceAll(sc.Src, "BASE", "1"))
+			wg.Wait()
+			if err == nil {
+				err = e2
+			}
+			extra = []string{strings.TrimSpace(b2.String())}
+		case "two-interps-stdlib":
+			// both interpreters exist (own streams, arguments, environment; the default symbols) before either runs
+			var b2 bytes.Buffer
+			mk := func(out *bytes.Buffer, arg, who string) *interp.Interpreter {
+				i := interp.New(interp.Options{Stdout: out, Stderr: &bytes.Buffer{}, Args: []string{"prog", arg}, Env: []string{"WHO=" + who}})
+				i.Use(miniStd) // one process-wide table handed to every interpreter, as stdlib.Symbols is
+				return i
+			}
+			i1, i2 := mk(&buf, "one", "first"), mk(&b2, "two", "second")
+			var wg vsched.WaitGroup
+			var e2 error
+			wg.Add(1)
+			vsched.GoNamed("interp2", func() {
+				defer wg.Done()
+				_, e2 = i2.Eval(sc.Src)
+			})
+			_, err = i1.Eval(sc.Src)
 			wg.Wait()
 			if err == nil {
 				err = e2
@@ -289,6 +318,7 @@ func scenarios() []scenario {
 		scs = append(scs, scenario{Name: fmt.Sprintf("T6d host threads=%d call exported function that calls a closure variable", n), Kind: "host-apply", N: n, Want: strings.Join(as, "|") + "\n"})
 	}
 	scs = append(scs, scenario{Name: "T7 two independent interpreters", Kind: "two-interps", Src: "package main\n\nimport . \"verif/engine/twin/h\"\n\nfunc main() {\n\ts := BASE\n\tc := make(chan int, 1)\n\tfor i := 0; i < 3; i++ {\n\t\tc <- s + i\n\t\ts = <-c\n\t}\n\tShow(s)\n}\n", Want: "4\n103\n"})
+	scs = append(scs, scenario{Name: "T7b two interpreters with the default symbols, own streams, arguments and environment", Kind: "two-interps-stdlib", Src: "package main\n\nimport (\n\t\"fmt\"\n\t\"os\"\n)\n\nfunc main() {\n\tc := make(chan int, 1)\n\ts := 0\n\tfor i := 0; i < 2; i++ {\n\t\tc <- s + i\n\t\ts = <-c\n\t}\n\tfmt.Println(os.Args[1], os.Getenv(\"WHO\"), s)\n\tfmt.Printf(\"%s-%d\\n\", os.Args[1], len(os.Args))\n}\n", Want: "one first 1\none-2\ntwo second 1\ntwo-2\n"})
 	return scs
 }
 
@@ -534,8 +564,10 @@ func racePass(r *report.Run) {
 		}
 	}
 	if !strings.Contains(so.String(), "race-pass runs:") {
-		// the separate binary died (e.g. an unrecovered panic in a goroutine of a template): its verdict is lost, say so
-		r.HarnessError("race pass did not complete: %s", lastLine(se.String()))
+				// on the pinned tree every template of the pass completes; free-running, an unrecovered panic in a goroutine of a
+		// template (which no schedule-independent program may raise) kills the whole pass
+		key := "race-pass: the free-running binary died (unrecovered panic or fatal error in a template)"
+		r.Fail(report.Failure{Key: key, What: key + ": " + lastLine(se.String()), Case: map[string]interface{}{"stderr_tail": lastLine(se.String())}})
 	}
 	r.Set("race_reports_with_interpreter_frames", reports)
 }
